@@ -108,8 +108,10 @@ func run(r *core.Run) {
 	var nfiles int64
 	var skipped int
 	maxSeed, maxVal := seedCaps(r)
+	w.coverMax = core.Pick(r, 4, 16)
 	if sc := w.loadSeedCache(); sc != nil {
 		seedMap, nfiles, skipped = sc.Seeds, sc.NFiles, sc.Skipped
+		w.cover = sc.Cover
 	} else {
 		files, sk := corpus.Files(r.Repo, maxCorpusFile)
 		nfiles, skipped = int64(len(files)), sk
@@ -118,7 +120,7 @@ func run(r *core.Run) {
 		if !ok {
 			return
 		}
-		w.saveSeedCache(&seedCache{Seeds: seedMap, NFiles: nfiles, Skipped: skipped})
+		w.saveSeedCache(&seedCache{Seeds: seedMap, Cover: w.cover, NFiles: nfiles, Skipped: skipped})
 	}
 	w.t.Counts["scan_done"] = 1
 	var seeds []*Seed
@@ -159,6 +161,11 @@ func run(r *core.Run) {
 			sl = append(sl, fmt.Sprintf("%s %dB %d values class%d %s", s.ID(), s.Len, s.Values, s.Class, s.Origin()))
 		}
 		r.Extra("seeds", sl)
+		var cl []any
+		for _, s := range w.cover {
+			cl = append(cl, fmt.Sprintf("%s %dB %d values %s", s.ID(), s.Len, s.Values, s.Origin()))
+		}
+		r.Extra("coverage_seeds", cl)
 		r.Extra("seed_classes", map[string]int{"whole_file_clean": cls[0], "embedded_range": cls[1], "whole_file_with_error": cls[2]})
 		r.Assume("every case starts from the interpreter state (options stack) that the real entry point sets up, obtained by running fq's _main once; bytes are handed to decode() as an in-memory binary, the process-like re-run of faulting cases reads them as a file through open")
 		r.Assume(fmt.Sprintf("a case without verdict after %s cpu (%s wall) or with a live heap over %d MiB is inconclusive (listed), never a violation, and the worker replaces its process image to get rid of it; a single allocation that the 16 GiB address-space ceiling of the worker refuses kills the worker and IS a violation", w.stepCPU, w.stepWall, w.heapMax>>20))
@@ -248,6 +255,47 @@ func run(r *core.Run) {
 		}
 	}
 
+	if (only == "" || only == "own") && !cut {
+		w.t.Counts["sections_done:own"] = 1
+	}
+
+	// 2b. structural mutations: the byte range of every value (field, struct, array
+	// element) of the seed's intact tree removed, duplicated, swapped with the equally
+	// long range behind it, zeroed and set to ones - the (offset, length) pairs come from
+	// the decode tree, so whole boxes / chunks / frames / table entries disappear or repeat
+	if only == "" || only == "struct" {
+		markCut("struct")
+		maxR := core.Pick(r, 120, 600)
+		structSeeds := append(append([]*Seed{}, seeds...), w.cover...)
+		total["struct_seeds"] = int64(len(structSeeds))
+		total["struct_coverage_seeds"] = int64(len(w.cover))
+		for si, s := range structSeeds {
+			if cut {
+				break
+			}
+			rs := structRanges(s, maxR)
+			total["struct_ranges"] += int64(len(rs))
+			for ri, rg := range rs {
+				for _, op := range structuralOps {
+					m := Mut{Op: op, Off: rg[0], Val: rg[1]}
+					if !m.Applies(s.Data, T) {
+						continue
+					}
+					s, m := s, m
+					mk := func() []byte { return m.Apply(s.Data) }
+					ord := si*1000 + ri
+					runCase("struct", ord, Case{Sec: "struct", Format: s.Format, Seed: s, Mut: &m}, mk)
+					runCase("struct", ord, Case{Sec: "struct", Format: s.Format, Force: true, Seed: s, Mut: &m}, mk)
+					runCase("struct", ord, Case{Sec: "struct", Format: "probe", Probe: true, Seed: s, Mut: &m}, mk)
+				}
+			}
+		}
+	}
+
+	if (only == "" || only == "struct") && !cut {
+		w.t.Counts["sections_done:struct"] = 1
+	}
+
 	// 3. cross-format confusion: every seed and its first 64 truncations under every format, forced
 	if only == "" || only == "cross" {
 		markCut("cross")
@@ -290,7 +338,7 @@ func run(r *core.Run) {
 		r.Extra("cases_in_family", total)
 	}
 	if !cut {
-		for _, s := range []string{"own", "cross"} {
+		for _, s := range []string{"own", "struct", "cross"} {
 			if only == "" || only == s {
 				w.t.Counts["sections_done:"+s] = 1
 			}
@@ -413,7 +461,7 @@ func parent(r *core.Run) {
 	T, O, _ := bounds(r)
 	grid := Grid(T, O)
 	res := map[string]any{}
-	for _, sec := range []string{"empty", "own", "cross"} {
+	for _, sec := range []string{"empty", "own", "struct", "cross"} {
 		min := int64(-1)
 		for i := 0; i < 64; i++ {
 			v := r.Counter(fmt.Sprintf("cut:%s:shard%02d", sec, i))
@@ -443,19 +491,21 @@ func parent(r *core.Run) {
 				break
 			}
 			res[sec] = fmt.Sprintf("points 0..%d of %d complete (point 0 = intact seeds, point k = truncation to k-1 bytes); cut inside point %d", min-1, crossTrunc+1, min)
+		case "struct":
+			res[sec] = fmt.Sprintf("cut: complete for the first %d seeds (seed index * 1000 + range index of the cut: %d)", min/1000, min)
 		default:
 			res[sec] = "cut"
 		}
 	}
 	// sections never reached by any shard
-	for _, sec := range []string{"empty", "own", "cross"} {
+	for _, sec := range []string{"empty", "own", "struct", "cross"} {
 		if _, ok := res[sec]; !ok {
 			res[sec] = "not started"
 		}
 	}
 	r.Extra("completed_prefix", res)
 	n := r.Counter("shards_reporting")
-	for _, sec := range []string{"empty", "own", "cross"} {
+	for _, sec := range []string{"empty", "own", "struct", "cross"} {
 		if n > 0 && r.Counter("sections_done:"+sec) == n {
 			r.Section(sec)
 		}
